@@ -9,6 +9,8 @@ import sys
 import time
 
 VERIF = os.path.dirname(os.path.dirname(os.path.abspath(__file__)))
+# mutant runs redirect evidence/replays so that committed evidence is never overwritten
+OUT = os.environ.get("VERIF_OUT") or VERIF
 MAX_SAMPLES = 6
 
 
@@ -124,7 +126,7 @@ class Report(Part):
                 reproduced.append(sig)
             else:
                 new.append(sig)
-        rdir = os.path.join(VERIF, "replays", self.prop)
+        rdir = os.path.join(OUT, "replays", self.prop)
         lines = []
         for sig in reproduced:
             lines.append("KNOWN-FINDING: property=%s %s -- %s" % (self.prop, sig, known[sig].get("what", "")))
@@ -171,8 +173,8 @@ class Report(Part):
             "known_findings_reproduced": reproduced,
             "notes": self.notes[:80],
         }
-        os.makedirs(os.path.join(VERIF, "evidence"), exist_ok=True)
-        evp = os.path.join(VERIF, "evidence", self.prop + ".json")
+        os.makedirs(os.path.join(OUT, "evidence"), exist_ok=True)
+        evp = os.path.join(OUT, "evidence", self.prop + ".json")
         tmp = evp + ".tmp%d" % os.getpid()
         with open(tmp, "w") as f:
             json.dump(ev, f, indent=1, sort_keys=True)
